@@ -1808,6 +1808,29 @@ static void case_ed_vectors(unit_t *u, int ci)
     if (out) psFree(out, NULL);
     free(mb); edk_free(&K);
 }
+/* Small-order public keys (all 8 torsion points in both sign encodings plus the non-canonical encodings of y = 0, 1, -1): with such a key the
+ * "signature" R = <small-order point>, S = 0 satisfies the verification equation for a large share of all messages, i.e. it can be made without any
+ * private key.  By construction none of these 14 x 14 x messages may be accepted (libcrypto's verdict is recorded, not used). */
+static const char *ED_SMALL[14] = {
+    "0100000000000000000000000000000000000000000000000000000000000000", "ecffffffffffffffffffffffffffffffffffffffffffffffffffffffffffff7f",
+    "0000000000000000000000000000000000000000000000000000000000000000", "0000000000000000000000000000000000000000000000000000000000000080",
+    "c7176a703d4dd84fba3c0b760d10670f2a2053fa2c39ccc64ec7fd7792ac037a", "c7176a703d4dd84fba3c0b760d10670f2a2053fa2c39ccc64ec7fd7792ac03fa",
+    "26e8958fc2b227b045c3f489f2ef98f0d5dfac05d3c63339b13802886d53fc05", "26e8958fc2b227b045c3f489f2ef98f0d5dfac05d3c63339b13802886d53fc85",
+    "0100000000000000000000000000000000000000000000000000000000000080", "ecffffffffffffffffffffffffffffffffffffffffffffffffffffffffffffff",
+    "edffffffffffffffffffffffffffffffffffffffffffffffffffffffffffff7f", "edffffffffffffffffffffffffffffffffffffffffffffffffffffffffffffff",
+    "eeffffffffffffffffffffffffffffffffffffffffffffffffffffffffffff7f", "eeffffffffffffffffffffffffffffffffffffffffffffffffffffffffffffff" };
+static void case_ed_smallorder(unit_t *u, int ci)
+{
+    unsigned char A[32], sig[64], msg[40]; int ai = ci % 14, ri = ci / 14; (void) u;
+    vf_unhex(A, ED_SMALL[ai]); vf_unhex(sig, ED_SMALL[ri]); memset(sig + 32, 0, 32);
+    int nmsg = vf_thorough ? 64 : 16, accepted = 0, rc = 0;
+    for (int m = 0; m < nmsg; m++) {
+        int ml = 1 + m % 33; for (int i = 0; i < ml; i++) msg[i] = (unsigned char) (m * 7 + i * 13 + ai);
+        rec("ed25519-verify", "ed25519", "small-order-key-forgery", ED_SMALL[ai] + 56);
+        if (ms_ed_verify(A, msg, ml, sig, 64, &rc)) { accepted++; if (accepted == 1) viol("ed25519-verify", "accepts-forgery-under-small-order-key", "signature R=%s S=0 accepted for public key %s (message of %d octets): it can be produced without any private key", ED_SMALL[ri], ED_SMALL[ai], ml); }
+        else verdict_stat("ed25519-verify", 0);
+    }
+}
 /* truncated Ed25519 signatures each get a unit of their own (an over-read aborts the process) */
 static void case_ed_trunc(unit_t *u, int ci)
 {
@@ -1896,6 +1919,7 @@ static void build_units(void)
     for (int k = 0; k < (T ? 600 : 6); k++) { unit_t *u = add_unit("ed25519-verify", case_ed, NEDV + ED_SWEEP, "ed/k%d", k); u->a = k; }
     for (int b = 0; b < 4; b++) { unit_t *u = add_unit("ed25519-verify", case_ed_trunc, 1, "edtrunc/l%d", b); u->a = 0; u->b = b; }
     add_unit("ed25519-verify", case_ed_vectors, 4, "edvec");
+    add_unit("ed25519-verify", case_ed_smallorder, 14 * 14, "edsmall");
 }
 
 int main(int argc, char **argv)
